@@ -1049,10 +1049,9 @@ impl SecureMemoryPool {
             .local_caches
             .get_or(|| RefCell::new(LocalCache::new(self.config.local_cache_size)));
 
-        if local_cache.borrow_mut().try_push(chunk).is_err() {
-            // Local cache full, try global stack
-            // SAFETY: try_push() just failed at line 992, guaranteeing cache has at least one element
-            let chunk = local_cache.borrow_mut().try_pop().unwrap();
+        let rejected = local_cache.borrow_mut().try_push(chunk);
+        if let Err(chunk) = rejected {
+            // Local cache full (or disabled): the chunk goes to the global stack
             self.global_stack.push(chunk);
         }
 
